@@ -435,4 +435,118 @@ def _validates_before_store(fn, val):
     return True
 
 
-RULES = [("C16-R1", rule_r1), ("C16-R2", rule_r2), ("C16-R3", rule_r3)]
+def _instance_store(st, inst, val):
+    """Does the statement store `val` into per-instance storage of `inst`?  Returns the key text."""
+    if isinstance(st, ast.Assign) and isinstance(st.value, ast.Name) and st.value.id == val:
+        for t in st.targets:
+            if isinstance(t, ast.Subscript):
+                base = ast.unparse(t.value)
+                if base in (f"{inst}.__dict__", f"vars({inst})"):
+                    return ast.unparse(t.slice)
+                if any(isinstance(x, ast.Name) and x.id == inst for x in ast.walk(t)):
+                    return "?" + ast.unparse(t)  # some other table keyed by the instance (C10-R1 judges it)
+    if isinstance(st, ast.Expr) and isinstance(st.value, ast.Call):
+        c = st.value
+        nm = _callee_name(c)
+        if nm in ("setattr", "__setattr__") and len(c.args) >= 2 and ast.unparse(c.args[-1]) == val:
+            if nm == "setattr" and ast.unparse(c.args[0]) != inst:
+                return None
+            return ast.unparse(c.args[-2])
+        if nm == "__setitem__" and isinstance(c.func, ast.Attribute) and ast.unparse(c.func.value) in (f"{inst}.__dict__", f"vars({inst})") and len(c.args) == 2 and ast.unparse(c.args[1]) == val:
+            return ast.unparse(c.args[0])
+    return None
+
+
+def _store_states(stmts, states, inst, val, exits, keys):
+    """Forward must-analysis: `states` is the set of 'value stored?' facts with which control can
+    reach the block; returns the set at its end.  Normal exits through `return` go to `exits`."""
+    for st in stmts:
+        if not states:
+            return states
+        k = _instance_store(st, inst, val)
+        if k is not None:
+            keys.add(k)
+            states = {True}
+        elif isinstance(st, ast.If):
+            a = _store_states(st.body, set(states), inst, val, exits, keys)
+            b = _store_states(st.orelse, set(states), inst, val, exits, keys)
+            states = a | b
+        elif isinstance(st, ast.Raise):
+            return set()
+        elif isinstance(st, ast.Return):
+            exits |= states
+            return set()
+        elif isinstance(st, (ast.For, ast.While, ast.AsyncFor)):
+            body = _store_states(st.body, set(states), inst, val, exits, keys)
+            states = _store_states(st.orelse, states | body, inst, val, exits, keys)
+        elif isinstance(st, (ast.With, ast.AsyncWith)):
+            states = _store_states(st.body, states, inst, val, exits, keys)
+        elif isinstance(st, ast.Try):
+            body = _store_states(st.body, set(states), inst, val, exits, keys)
+            hs = set()
+            for h in st.handlers:
+                hs |= _store_states(h.body, states | body, inst, val, exits, keys)
+            states = _store_states(st.orelse, body, inst, val, exits, keys) | hs
+            if st.finalbody:
+                states = _store_states(st.finalbody, states, inst, val, exits, keys)
+    return states
+
+
+def rule_r4(ctx):
+    rr = RuleResult("C16-R4", "option descriptor: every accepted assignment is stored (the last -C wins), under the key __get__ reads")
+    rr.floor = 1
+    for dc in _descriptor_classes(ctx.prog):
+        fi = dc.methods["__set__"]
+        rr.instances += 1
+        params = [a.arg for a in fi.node.args.posonlyargs + fi.node.args.args]
+        if len(params) != 3:
+            raise AnalysisError(f"C16-R4: {fi.where()}: __set__ does not have the descriptor signature")
+        _self, inst, val = params
+        rebinds = [n for n in ast.walk(fi.node) if isinstance(n, ast.Name) and isinstance(n.ctx, ast.Store) and n.id in (inst, val)]
+        if rebinds:
+            raise AnalysisError(f"C16-R4: {fi.where()}: __set__ rebinds its parameter {rebinds[0].id}")
+        exits, keys = set(), set()
+        end = _store_states(fi.node.body, {False}, inst, val, exits, keys)
+        normal = end | exits
+        what = f"{dc.name}.__set__|stores-on-every-normal-exit"
+        if not keys:
+            # storage outside the instance is C10-R1's business; nothing to pair here
+            rr.fail(f"C16-R4|{dc.name}.__set__|no-instance-store", f"{fi.where()}: __set__ never stores the value in the instance", where=fi.where(), what=what)
+            continue
+        foreign = {k for k in keys if k.startswith("?")}
+        if False in normal:
+            rr.fail(
+                f"C16-R4|{dc.name}.__set__|conditional-store",
+                f"{fi.where()}: some path through __set__ returns normally without storing the value in the instance: an accepted assignment is silently dropped, so an earlier value of the option survives (`-C x=other -C x=default` keeps `other`) and the command line converts with options the library call was not given",
+                where=fi.where(), what=what,
+            )
+        else:
+            rr.ok(what, sample={"rule": "C16-R4", "descriptor": f"{dc.name}.__set__", "keys": sorted(keys), "verdict": "every non-raising path stores the value"})
+        # the reader uses the same key
+        g = dc.methods.get("__get__")
+        if g is None or foreign:
+            continue
+        rr.instances += 1
+        what = f"{dc.name}.__get__|same-key"
+        gparams = [a.arg for a in g.node.args.posonlyargs + g.node.args.args]
+        ginst = gparams[1] if len(gparams) > 1 else "instance"
+        read_keys = set()
+        for n in ast.walk(g.node):
+            if isinstance(n, ast.Call) and _callee_name(n) in ("get", "getattr", "pop", "__getitem__") and n.args:
+                if _callee_name(n) == "getattr":
+                    if ast.unparse(n.args[0]) == ginst and len(n.args) > 1:
+                        read_keys.add(ast.unparse(n.args[1]))
+                elif isinstance(n.func, ast.Attribute) and ast.unparse(n.func.value) in (f"{ginst}.__dict__", f"vars({ginst})"):
+                    read_keys.add(ast.unparse(n.args[0]))
+            elif isinstance(n, ast.Subscript) and isinstance(n.ctx, ast.Load) and ast.unparse(n.value) in (f"{ginst}.__dict__", f"vars({ginst})"):
+                read_keys.add(ast.unparse(n.slice))
+        if not read_keys:
+            raise AnalysisError(f"C16-R4: {g.where()}: cannot find where __get__ reads the instance storage")
+        if read_keys != keys:
+            rr.fail(f"C16-R4|{dc.name}|key-mismatch", f"{g.where()}: __get__ reads key(s) {sorted(read_keys)} but __set__ stores under {sorted(keys)}", where=g.where(), what=what)
+        else:
+            rr.ok(what)
+    return rr
+
+
+RULES = [("C16-R1", rule_r1), ("C16-R2", rule_r2), ("C16-R3", rule_r3), ("C16-R4", rule_r4)]
